@@ -22,6 +22,13 @@ RULE = ('every history over the five writer calls {new_change, new_file, '
         'calls only. Random histories of length 10-60 beyond. Distinct by '
         'construction (histories) + fingerprints (random); non-trivial = '
         'history contains at least one rejected and one accepted call.')
+RULE += (
+         ' Also: every hostile-option variant is fired once more with '
+         'warnings turned into errors (whatever raises must be atomic); '
+         'chunks handed to write() that are not immutable bytes must still '
+         'hold the same bytes at the end (a sink may retain them). Process '
+         'axes (DESIGN 2.8): 2 of 16 shards run under python -O, 4 of 16 '
+         'after a hostile warm-up of the library.')
 FLOOR = {'quick': 20000, 'thorough': 400000}
 REQUIRED_REACH = ['writer.py:']
 REQUIRED_COUNTERS = ['order_rejections_checked_atomic',
